@@ -348,3 +348,64 @@ package system
 //@     instantiate normTwice(fromS(c[i]), fromS(other[i]))
 //@     reveal itemEq3(c[i], other[i])
 //@   assigns nothing
+//
+// ---- C09: date/time arithmetic -------------------------------------------------------------
+// "an amount in a unit finer than the value's precision is first converted to whole units of
+// that precision": the duration rounded down to whole units of the precision
+//@ func roundToTimePrecision(p, d) (res)
+//@   requires 0 <= p && p <= 2
+//@   ensures int(res) == (int(d) / timeUnitNs(p)) * timeUnitNs(p)
+//@   assigns nothing
+//
+//@ func roundToDateTimePrecision(p, d) (res)
+//@   requires 0 <= p && p <= 5
+//@   ensures int(res) == (int(d) / dtUnitNs(p)) * dtUnitNs(p)
+//@   assigns nothing
+//
+// unit -> duration: hours, minutes, seconds (keeping milliseconds), milliseconds; any other
+// unit is an error. Amounts up to a million units (no int64 overflow).
+//@ func (q Quantity) timeDuration() (res, err)
+//@   requires absR(q.value) <= 1000000.0
+//@   let v = truncR(q.value)
+//@   ensures isUnit(q.unit, "hour") ==> err == nil && int(res) == v * NS_HOUR
+//@   ensures isUnit(q.unit, "minute") ==> err == nil && int(res) == v * NS_MIN
+//@   ensures isUnit(q.unit, "second") ==> err == nil && int(res) == truncR(roundPlaces(q.value, 3) * 1000.0) * NS_MS
+//@   ensures isUnit(q.unit, "millisecond") ==> err == nil && int(res) == v * NS_MS
+//@   ensures !isTimeUnit(q.unit) ==> is(err, ErrMismatchedUnit)
+//@   assigns nothing
+//
+//@ func (q Quantity) toYears() (res, err)
+//@   requires absR(q.value) <= 1000000000.0
+//@   ensures isCalUnit(q.unit) ==> err == nil && int(res) == yearsOf(q.unit, truncR(q.value))
+//@   ensures !isCalUnit(q.unit) ==> is(err, ErrMismatchedUnit)
+//@   assigns nothing
+//
+//@ func (q Quantity) toMonths() (res, err)
+//@   requires absR(q.value) <= 1000000000.0
+//@   ensures isCalUnit(q.unit) ==> err == nil && int(res) == monthsOf(q.unit, truncR(q.value))
+//@   ensures !isCalUnit(q.unit) ==> is(err, ErrMismatchedUnit)
+//@   assigns nothing
+//
+// Quantities add and subtract only within one unit
+//@ func (q Quantity) Add(input) (res, err)
+//@   ensures q.unit == input.unit ==> err == nil && res.value == q.value + input.value && res.unit == q.unit
+//@   ensures q.unit != input.unit ==> is(err, ErrMismatchedUnit)
+//@   assigns nothing
+//@ func (q Quantity) Sub(input) (res, err)
+//@   ensures q.unit == input.unit ==> err == nil && res.value == q.value - input.value && res.unit == q.unit
+//@   ensures q.unit != input.unit ==> is(err, ErrMismatchedUnit)
+//@   assigns nothing
+//@ func (q Quantity) Negate() (res)
+//@   ensures res.value == 0.0 - q.value && res.unit == q.unit
+//@   assigns nothing
+//
+//@ func min(x, y) (res)
+//@   ensures res == minI(x, y)
+//@   assigns nothing
+//
+// ---- C14 ------------------------------------------------------------------------------------
+//@ func (c Collection) ToString() (res, err)
+//@   requires validColl(c)
+//@   ensures (err == nil) == (len(c) == 1 && fromOk(c[0]) && isStringV(fromS(c[0])))
+//@   ensures err == nil ==> res == unbox(fromS(c[0]), String)
+//@   assigns nothing
